@@ -228,6 +228,28 @@ pub fn nth_context_case(i: u64) -> String {
     format!("{ctx}{follower}{suf}")
 }
 
+/// "Sliding" cases: a multi-byte character (literal, or %-escaped where only escapes are legal)
+/// placed behind k = 0..=40 ASCII characters inside every construct whose TEXT is later handled
+/// by byte offset somewhere (tags, anchors, tagged and untagged plain scalars, keys, directive
+/// values): byte-offset arithmetic against a constant (a prefix length, a split point) fails only
+/// when a character straddles exactly that offset.
+pub const SLIDE_TEMPLATES: [&str; 14] = [
+    "!<{P}{E}> x\n", "!<tag:{P}{E}> x\n", "!{P}{E} x\n", "!!{P}{E} x\n", "&{P}{M} x\n", "*{P}{M}\n", "!!int {D}{M}\n", "!!float {D}{M}\n", "!!bool {P}{M}\n",
+    "!!null {P}{M}\n", "{P}{M}: v\n", "- {D}{M}\n", "%TAG !e! {P}{E}\n--- !e!x y\n", "k: !<tag:yaml.org,2002:{P}{E}> 1\n",
+];
+pub const SLIDE_CHARS: [(&str, &str); 3] = [("\u{e9}", "%C3%A9"), ("\u{4e2d}", "%E4%B8%AD"), ("\u{1F600}", "%F0%9F%98%80")];
+pub fn slide_count() -> u64 {
+    (SLIDE_TEMPLATES.len() * 41 * SLIDE_CHARS.len()) as u64
+}
+pub fn nth_slide(i: u64) -> String {
+    let (lit, esc) = SLIDE_CHARS[(i % 3) as usize];
+    let k = ((i / 3) % 41) as usize;
+    let t = SLIDE_TEMPLATES[((i / 123) % SLIDE_TEMPLATES.len() as u64) as usize];
+    let p: String = (0..k).map(|j| (b'a' + (j % 26) as u8) as char).collect();
+    let d: String = (0..k).map(|j| (b'1' + (j % 9) as u8) as char).collect();
+    t.replace("{P}", &p).replace("{D}", &d).replace("{E}", esc).replace("{M}", lit)
+}
+
 pub struct Gen<'a> {
     pub r: SplitMix64,
     pub corpus: &'a Corpus,
@@ -1206,6 +1228,16 @@ impl<'a> Gen<'a> {
                 // documents that use !e! without it are valid only under keep_tags(true)
                 doc.push_str(*self.r.pick(&["%TAG !e! tag:e.com,2000:\n", "%TAG !e! !local-\n", "%YAML 1.2\n%TAG !e! tag:e.com,2000:\n"]));
                 self.e_handle = true;
+                explicit = true;
+            } else if self.r.chance(1, 40) {
+                // long blank runs at the separators inside directives
+                let (a, b) = (self.sep_run(), self.sep_run());
+                if self.r.chance(1, 2) {
+                    doc.push_str(&format!("%YAML{a}1.2\n"));
+                } else {
+                    doc.push_str(&format!("%TAG{a}!e!{b}tag:e.com,2000:\n"));
+                    self.e_handle = true;
+                }
                 explicit = true;
             } else if self.r.chance(1, 40) {
                 // %YAML with version components at and around integer limits
